@@ -18,9 +18,11 @@ Joins == {[comb |-> c, items |-> it, cap |-> k] :
 Pipes == {[comb |-> c, items |-> <<m, n>>, cap |-> k] :
             c \in Combs \cap {"pipeline"}, m \in 0..MaxInputs, n \in 0..MaxItems, k \in 0..MaxCap}
 \* do: 2..MaxInputs functions, every failing subset (function i fails with error code i), with and without rendezvous
-Dos == {[comb |-> c, fail |-> f, rv |-> b, items |-> <<>>, cap |-> 0] :
-          c \in Combs \cap {"do"}, b \in BOOLEAN,
-          f \in UNION {{g \in [1..n -> 0..n] : \A i \in 1..n : g[i] \in {0, i}} : n \in 2..MaxInputs}}
+DoFails(lo) == UNION {{g \in [1..n -> 0..n] : \A i \in 1..n : g[i] \in {0, i}} : n \in lo..MaxInputs}
+Dos == {[comb |-> c, fail |-> f, rv |-> b, ring |-> FALSE, items |-> <<>>, cap |-> 0] :
+          c \in Combs \cap {"do"}, b \in BOOLEAN, f \in DoFails(2)}
+       \cup {[comb |-> c, fail |-> f, rv |-> FALSE, ring |-> TRUE, items |-> <<>>, cap |-> 0] :
+          c \in Combs \cap {"do"}, f \in DoFails(3)}
 Chaoses == {[comb |-> c, kind |-> k, items |-> <<>>, cap |-> 0] : c \in Combs \cap {"chaos"}, k \in ChaosKinds}
 Configs == Linear \cup Joins \cup Pipes \cup Dos \cup Chaoses
 
